@@ -22,9 +22,8 @@ def one(args):
     rc, chk = run_check(prop, "quick", root=root, quiet=True, write=False)
     reports = []
     if chk is not None:
-        for i in chk.instances:
-            if i.verdict != "HOLDS" and getattr(i, "armed", True) and not getattr(i, "known", False):
-                reports.append(f"{i.rel}:{i.line} {i.func}: [{i.kind}/{i.name}] {i.verdict} {(i.detail or '')[:160]}")
+        for i in list(getattr(chk, "new_violations", [])) + list(getattr(chk, "undecided_armed", [])):
+            reports.append(f"{i.rel}:{i.line} {i.func}: [{i.kind}/{i.name}] {i.verdict} {(i.detail or '')[:200]}")
     return prop, rc, reports
 
 
